@@ -388,12 +388,80 @@ pub fn run(rep: &'static Report) {
     if rep.violation_count() == 0 && (d == 0 || d != e) {
         crate::report::machinery(&format!("vacuous run: {} drops, {} release events", d, e));
     }
+    // Supplementary, NOT exhaustive (sampling, labelled as such): the containers contain no synchronisation operation, so there
+    // is no interleaving space for a controlled scheduler; this free-running pass drops an original and its clone at the same
+    // moment on two threads and inspects the released memory (a shared/ref-counted representation would race here).
+    {
+        use std::sync::atomic::{AtomicBool, AtomicUsize};
+        let trials = rep.tier.pick(3000usize, 20000);
+        let vals = key_values(rep.seed);
+        let leaked = AtomicUsize::new(0);
+        let observed = AtomicUsize::new(0);
+        for kind in 0..2 {
+            for t in 0..trials {
+                let go = Arc::new(AtomicBool::new(false));
+                let ready = Arc::new(AtomicUsize::new(0));
+                let mk = |first: bool| -> Obj {
+                    let _ = first;
+                    if kind == 0 {
+                        Obj::Priv(Box::new(PrivateKey::try_from(&vals[t % 2][..]).unwrap()))
+                    } else {
+                        Obj::Pay(Box::new(PayloadKey::new(&vals[t % 2])))
+                    }
+                };
+                let a = mk(true);
+                let b = match &a {
+                    Obj::Priv(k) => Obj::Priv(Box::new((**k).clone())),
+                    Obj::Pay(k) => Obj::Pay(Box::new((**k).clone())),
+                    Obj::PayOdd(k) => Obj::PayOdd(Box::new((k.0, k.1.clone()))),
+                };
+                let expect = vals[t % 2];
+                std::thread::scope(|sc| {
+                    for o in [a, b] {
+                        let (go, ready, leaked, observed) = (go.clone(), ready.clone(), &leaked, &observed);
+                        sc.spawn(move || {
+                            mon::watch_clear();
+                            let addr = o.addr();
+                            mon::watch_add(addr);
+                            ready.fetch_add(1, Ordering::SeqCst);
+                            while !go.load(Ordering::SeqCst) {
+                                std::hint::spin_loop();
+                            }
+                            drop(o);
+                            for e in mon::watch_events() {
+                                if e.addr == addr {
+                                    observed.fetch_add(1, Ordering::Relaxed);
+                                    if e.bytes == expect {
+                                        leaked.fetch_add(1, Ordering::Relaxed);
+                                    }
+                                }
+                            }
+                        });
+                    }
+                    while ready.load(Ordering::SeqCst) < 2 {
+                        std::hint::spin_loop();
+                    }
+                    go.store(true, Ordering::SeqCst);
+                });
+            }
+        }
+        let l = leaked.load(Ordering::Relaxed);
+        rep.extra("concurrent_drop_sampling", json!({"label":"sampling, supplementary (not the deciding step)","trials_per_kind":trials,"releases_observed":observed.load(Ordering::Relaxed),"released_with_key_intact":l}));
+        if l > 0 {
+            rep.violation("concurrent/released-intact", json!({"kind":"concurrent"}), format!("original and clone dropped concurrently on two threads: {} buffer(s) were released with the key intact", l));
+        }
+    }
     rep.sample(json!({"program":["NewPriv(0, 1)","Clone(0, 1)","Drop(0)","Use(1)","PanicDrop(1)"],"key":"value with zero bytes inside","expect":"both releases show 32 zero bytes; the clone still holds the key after the original is dropped"}));
     rep.sample(json!({"program":["NewPay(2, 0)","Clone(2, 0)","Drop(2)"],"expect":"inline 32 bytes of the boxed PayloadKey zeroed at release"}));
     rep.set_exhaustive(true);
 }
 
 pub fn replay(rep: &'static Report, case: &Value) {
+    if case["kind"] == "concurrent" {
+        println!("  re-running C20 (the concurrent pass is sampling; its verdict may need several runs)");
+        run(rep);
+        return;
+    }
     let ops: Vec<Op> = case["ops"].as_array().unwrap().iter().map(|o| parse_op(o.as_str().unwrap())).collect();
     let r1 = execute(rep.seed, &ops).map(|o| (o.drops, o.events));
     let r2 = execute(rep.seed, &ops).map(|o| (o.drops, o.events));
